@@ -5,7 +5,7 @@
    implementation's output; agreement with CommonMark itself is validated
    differentially on every run (checks/C35.md), it is not a theorem. *)
 From Coq Require Import String.
-From verif Require Import lib.Base model.C35_Bal model.C35_Inline model.C35 proofs.C35_proofs proofs.C35_naive.
+From verif Require Import lib.Base model.C35_Bal model.C35_Inline model.C35 proofs.C35_proofs proofs.C35_naive proofs.C35_codespan.
 
 (* The delimiter-stack loop of processEmphasis terminates on every delimiter
    stack: the measure (remaining delimiter text + entries still to scan)
@@ -49,14 +49,16 @@ Theorem C35_flanking_is_documented_table : forall us sp pp sn pn,
 Proof. exact flank_table. Qed.
 Print Assumptions C35_flanking_is_documented_table.
 
-(* Code spans: the closer found is a run of exactly as many backticks as the
-   opener, at or after the start position (weaker than the full longest-match
-   rule: minimality of the position is sampled, not proved). *)
-Theorem C35_codespan_closer_exact_partial : forall fuel s k i j,
-  find_backtick_run fuel s k i = Some j ->
-  (i <= j)%nat /\ span is_bt (skipn j s) = k.
-Proof. exact codespan_closer_exact. Qed.
-Print Assumptions C35_codespan_closer_exact_partial.
+(* Code spans, the full rule: started at a byte that is no backtick (the parser
+   starts right after the opening run), findBacktickRun returns the FIRST
+   maximal backtick run of exactly the opener's length: the run at j has length
+   k exactly (so the byte after it is no backtick), the byte before it is no
+   backtick, and no position between i and j starts such a run. *)
+Theorem C35_codespan_closer_is_first_exact_run : forall s k i j,
+  (1 <= k)%nat -> bt_at s i = false -> findBacktickRun s k i = Some j ->
+  (i <= j)%nat /\ is_run s k j /\ forall p, (i <= p < j)%nat -> ~ is_run s k p.
+Proof. exact codespan_first_exact_run. Qed.
+Print Assumptions C35_codespan_closer_is_first_exact_run.
 
 (* parseLinkTail: the scan of a bare destination consumes input in every
    iteration, the fuel (length + 1) is never exhausted. *)
